@@ -71,6 +71,16 @@ pub fn gen_world(seed: u64, idx: u64, s: &dyn SuiteOps) -> World {
     for cred in [&cred_x, &cred_x, &cred_a, &cred_x] {
         let (l, mut ops) = b.login_ops(&mut g, setup, None, &pw, &pw, cred, ctx.clone(), ctx.clone(), ids.clone(), ids.clone(), ksf.clone(), false);
         ops.pop();
+        // "every random tape" includes degenerate ones: a quarter of the no-record attempts
+        // run on a tape whose first Nh bytes (the dummy masking key draw) are zeros or 0xFF bytes
+        if g.chance(1, 4) {
+            if let Op::LoginRespond { tape, .. } = &mut ops[1] {
+                if let crate::world::Tape::Own(l) = tape.clone() {
+                    let fill = if g.chance(1, 2) { 0u8 } else { 0xFF };
+                    *tape = crate::world::Tape::Scripted(l, vec![fill; nh].into());
+                }
+            }
+        }
         fake_states.push(l.sst);
         // the same request is also answered with the real record and once more without: beta must agree
         let st2 = b.id();
